@@ -36,7 +36,11 @@ def ordering():
         out.append(f"SELECT a, b FROM x ORDER BY {o} LIMIT 1")
         out.append(f"SELECT a, b FROM x ORDER BY {o} LIMIT 1 OFFSET 1")
         out.append(f"SELECT q.a FROM (SELECT a, b FROM x ORDER BY {o} LIMIT 1) AS q")
+        # OFFSET without LIMIT (DuckDB accepts it; SQLite needs LIMIT -1 OFFSET n)
+        out.append(f"SELECT a, b FROM x ORDER BY {o} OFFSET 1")
         out.append(f"SELECT a, SUM(b) AS s FROM x GROUP BY a ORDER BY {o.replace('b', 's') if 'b' in o else o}")
+    out.append("SELECT q.a FROM (SELECT a, b FROM x ORDER BY a NULLS FIRST, b NULLS FIRST OFFSET 1) AS q WHERE q.b > 0")
+    out.append("SELECT a FROM x UNION ALL SELECT b FROM y ORDER BY a NULLS LAST OFFSET 1")
     return out
 
 
